@@ -29,7 +29,8 @@ LEVEL_NOTE = (
 RULE = (
     "cases = generated multi-agent problem recipes (2-3 agents, shared pool of private/public agent fluents, environment "
     "fluents, Boolean / bounded-int / object fluents, conditional, forall and increase/decrease effects, disjunctive / negative "
-    "/ quantified conditions, Dot references to other agents' fluents, Dot goals) x both compilers. All total states over the "
+    "/ quantified conditions, Dot references to other agents' fluents, Dot goals, actions shared by several agents, same-named "
+    "actions of different agents with different bodies and with equal bodies) x both compilers. All total states over the "
     "ground fluents are enumerated when there are at most 2^8, else a seeded sample of that size plus the initial state. One "
     "evaluation = one judged (compiler, agent, ground instance, state) tuple or one judged (compiler, state) goal comparison. "
     "distinct_nontrivial = distinct (problem, compiler, agent, instance) for which the compiler produced >= 2 variants."
@@ -198,6 +199,19 @@ def judge(pb, result, cname, keys, states, wbase, res, pid):
                 if back.agent is not None and back.agent.name != cag.name:
                     res.case()
                     viol("map-back-changes-agent", f"compiled action {ca.name} of agent {cag.name} maps back to agent {back.agent.name}")
+                    return
+                own = [x for x in pb.agent(cag.name).actions if x.name == back.action.name]
+                if not own or own[0] != back.action:
+                    # action names are unique per agent only: the variant must map back to an action of its *own* agent
+                    res.case()
+                    viol(
+                        "map-back-to-an-action-the-agent-does-not-own",
+                        f"compiled action {ca.name} of agent {cag.name} maps back to an action named {back.action.name} that differs from {cag.name}'s own action of that name"
+                        if own
+                        else f"compiled action {ca.name} of agent {cag.name} maps back to {back.action.name}, which {cag.name} does not have",
+                        variant=str(ca),
+                        mapped_back=str(back.action),
+                    )
                     return
                 variants.setdefault((cag.name, back.action.name), []).append(ca)
     # Compiler-introduced agent fluents that actions of *other* agents write through a bare fluent expression (the MA
@@ -449,6 +463,9 @@ def thresholds(m):
         ("feature:dot", 10),
         ("feature:conditional-effect", 10),
         ("feature:disjunction", 10),
+        ("feature:same-name:different-body:lender-first", 5),
+        ("feature:same-name:different-body:lender-second", 5),
+        ("feature:same-name:equal-copy", 3),
         ("problems_exhaustive_states", 5),
         ("orig_applicable_with_variant", 200),
     ):
